@@ -1,0 +1,15 @@
+//go:build verif
+
+// Contracts for package deduplicator, checked by /verif (govc). Comment-only file.
+package deduplicator
+
+// Apply: a key whose hand-off failed is not marked as seen (the cache is only written after
+// fn returned nil), and fn's error is returned. fn is an arbitrary function: it may do
+// anything to the heap, but it cannot make the cache's Set be called (ghost call counter).
+//@ func (d *Deduplicator) Apply(ctx context.Context, key string, fn func() error) (err error)
+//@   props C19
+//@   requires d != nil
+//@   ensures [not-marked-on-error] err != nil ==> ghostCount("cache.Set") == old(ghostCount("cache.Set"))
+//@   ensures [marked-at-most-once] ghostCount("cache.Set") <= old(ghostCount("cache.Set")) + 1
+//@   modifies *
+//@   inline-at-callers
